@@ -112,6 +112,10 @@ func (se *SessionExecutor) checkSQLAllowed(reqCtx *util.RequestContext, sql stri
 	return nil
 }
 
+// errMultiStmtsAnswered: doMultiStmts has sent the client the error that ends the answer
+// (ExecuteCommand sends nothing more)
+var errMultiStmtsAnswered = fmt.Errorf("multi statements: the error response has been sent")
+
 // handle multi-stmts,like `select 1;set autcommit=0;insert into...;`
 func (se *SessionExecutor) doMultiStmts(reqCtx *util.RequestContext, sql string) (r *mysql.Result, errRet error) {
 	if se.session.c.hasRecycledReadPacket.CompareAndSwap(false, true) {
@@ -144,6 +148,12 @@ func (se *SessionExecutor) doMultiStmts(reqCtx *util.RequestContext, sql string)
 				log.Warn("session write response error, error: %v", err)
 				se.session.Close()
 				return r, err
+			}
+			if se.session.streamFailed {
+				// the streamed result of this statement ended with an error packet: for the client the
+				// answer to the whole packet is over, like after a statement that fails at once. Going on
+				// would send it the results of the following statements as answers to its next commands.
+				return nil, errMultiStmtsAnswered
 			}
 		}
 	}
